@@ -1,5 +1,8 @@
 import PfVerif.Proofs.C10
 import PfVerif.Proofs.C10Seg
+import PfVerif.Proofs.C10Total
+import PfVerif.Proofs.C10Stat
+import PfVerif.Props.C11
 /-! # C10 — unit catchments partition the fine grid by nearest downstream outlet pixel
 
 All theorems quantify over every network `ds`, every downstream-first order `seq` (`Topo`, what C03
@@ -56,13 +59,13 @@ theorem ucat_map_of_seed {ds : Array Nat} {seq outs : List Nat} {w : Nat → Int
     simp [gFillNd, h]
   · exact (ucat_inv ds seq outs w htopo hb).2.2.1 a ha
 
-/-- **sum clause** (`ucat_area_sum` / `ucat_volume_sum`): for an outlet pixel `o` listed once (at
-position `k`), the accumulated value is the sum of the cell weights over exactly the cells of the
-raster that carry label `k + 1`. -/
+/-- **sum clause** (`ucat_area_sum` / `ucat_volume_sum`): for an outlet pixel `o` whose LAST position in the
+outlet vector is `k` (in particular: an outlet pixel listed once), the accumulated value is the sum of
+the cell weights over exactly the cells of the raster that carry label `k + 1`. -/
 theorem ucat_acc_sum (ds : Array Nat) (seq outs : List Nat) (w : Nat → Int)
     (htopo : Topo ds seq) (hb : ∀ i ∈ seq, i < ds.size)
     (k o : Nat) (hk : outs[k]? = some o) (ho : o < ds.size)
-    (hdist : ∀ q : Nat, outs[q]? = some o → q = k) :
+    (hlast : ∀ q : Nat, outs[q]? = some o → q ≤ k) :
     (ucatAccum ds seq outs w).2[k]! =
       sumIf (List.range ds.size) (fun i => (ucatAccum ds seq outs w).1[i]! == (k : Int) + 1) w := by
   obtain ⟨hL, _, hU, hA⟩ := ucat_inv ds seq outs w htopo hb
@@ -73,9 +76,12 @@ theorem ucat_acc_sum (ds : Array Nat) (seq outs : List Nat) (w : Nat → Int)
   -- the seed of the outlet pixel is k + 1, and so is its label
   have hseed_o : (mapSeed ds.size outs)[o]! = (k : Int) + 1 := by
     rw [mapSeed_get, if_pos ho]
-    rcases lastPos1_cases outs o with ⟨_, h2⟩ | ⟨p, hp, hv, _⟩
+    rcases lastPos1_cases outs o with ⟨_, h2⟩ | ⟨p, hp, hv, hmx⟩
     · exact absurd (List.mem_of_getElem? hk) h2
-    · rw [hv, hdist p hp]
+    · have h1 := hlast p hp
+      have h2 := hmx k hk
+      have : p = k := by omega
+      rw [hv, this]
   have hM_o : M[o]! = (k : Int) + 1 := by
     rw [hM, ucat_map_of_seed htopo hb (by rw [hseed_o]; omega), hseed_o]
   -- a cell with a non-zero seed and label k + 1 is the outlet pixel itself
@@ -121,7 +127,7 @@ theorem ucat_acc_missing (ds : Array Nat) (seq outs : List Nat) (w : Nat → Int
   rw [hA k hklt, accSeed_get _ _ _ k _ hk, sumIf_false]
   · simp
   · intro i _
-    rcases hL i with h | ⟨p, c, hp, hc, hv⟩
+    rcases hL i with h | ⟨p, c, hp, hc, hv, _⟩
     · have : ¬ ((0 : Int) = (k : Int) + 1) := by omega
       simp [h, this]
     · have : ¬ ((p : Int) + 1 = (k : Int) + 1) := by
@@ -132,28 +138,72 @@ theorem ucat_acc_missing (ds : Array Nat) (seq outs : List Nat) (w : Nat → Int
         omega
       simp [hv, this]
 
-/-- no cell carries the label of a missing outlet, and every label is the position of a listed,
-in-range outlet pixel -/
+/-- no cell carries the label of a missing outlet or of an outlet entry that is listed again later:
+every label is `1 +` the LAST position of a listed, in-range outlet pixel -/
 theorem ucat_label_range (ds : Array Nat) (seq outs : List Nat) (w : Nat → Int)
     (htopo : Topo ds seq) (hb : ∀ i ∈ seq, i < ds.size) (i : Nat) :
     (ucatAccum ds seq outs w).1[i]! = 0 ∨
-    ∃ p c : Nat, outs[p]? = some c ∧ c < ds.size ∧ (ucatAccum ds seq outs w).1[i]! = (p : Int) + 1 :=
+    ∃ p c : Nat, outs[p]? = some c ∧ c < ds.size ∧ (ucatAccum ds seq outs w).1[i]! = (p : Int) + 1 ∧
+      ∀ q : Nat, outs[q]? = some c → q ≤ p :=
   (ucat_inv ds seq outs w htopo hb).1 i
 
-/-- **totals** (`ucat_area_total`): with pairwise distinct outlet pixels, the values reported for the
-non-missing outlets add up to the total weight of all labelled cells. -/
+/-- **outlet pixel listed twice** (what the code does): the map keeps the LAST position (`ucat_acc_sum`
+applies to that entry); an earlier entry `k` of the same pixel `o` reports the pixel's own weight
+only, and no cell of the raster carries label `k + 1`. -/
+theorem ucat_acc_shadowed (ds : Array Nat) (seq outs : List Nat) (w : Nat → Int)
+    (htopo : Topo ds seq) (hb : ∀ i ∈ seq, i < ds.size)
+    (k q o : Nat) (hk : outs[k]? = some o) (ho : o < ds.size) (hq : outs[q]? = some o) (hkq : k < q) :
+    (ucatAccum ds seq outs w).2[k]! = w o ∧
+    ∀ i : Nat, (ucatAccum ds seq outs w).1[i]! ≠ (k : Int) + 1 := by
+  obtain ⟨hL, _, _, hA⟩ := ucat_inv ds seq outs w htopo hb
+  have hklt : k < outs.length := (List.getElem?_eq_some_iff.mp hk).1
+  have hno : ∀ i : Nat, (ucatAccum ds seq outs w).1[i]! ≠ (k : Int) + 1 := by
+    intro i hi
+    rcases hL i with h | ⟨p, c, hp, _, hv, hmx⟩
+    · rw [h] at hi; omega
+    · have hpk : p = k := by rw [hv] at hi; omega
+      rw [hpk, hk] at hp
+      have hc : o = c := Option.some.inj hp
+      have := hmx q (hc ▸ hq)
+      omega
+  refine ⟨?_, hno⟩
+  rw [hA k hklt, accSeed_get _ _ _ k o hk, if_pos (Nat.ne_of_lt ho), sumIf_false]
+  · simp
+  · intro i _
+    have := hno i
+    simp [this]
+
+/-- the 1-based last position of the pixel at entry `k` is `k + 1` iff no later entry lists it again -/
+theorem lastPos1_eq_iff (outs : List Nat) (k o : Nat) (hk : outs[k]? = some o) :
+    lastPos1 outs o = (k : Int) + 1 ↔ ∀ q : Nat, outs[q]? = some o → q ≤ k := by
+  rcases lastPos1_cases outs o with ⟨_, h2⟩ | ⟨p, hp, hv, hmx⟩
+  · exact absurd (List.mem_of_getElem? hk) h2
+  · constructor
+    · intro h q hq
+      have : p = k := by rw [hv] at h; omega
+      exact this ▸ hmx q hq
+    · intro h
+      have h1 := h p hp
+      have h2 := hmx k hk
+      have : p = k := by omega
+      rw [hv, this]
+
+/-- **totals** (`ucat_area_total`), duplicates allowed: the values reported for the non-missing outlet
+entries that are the last entry of their pixel add up to the total weight of all labelled cells. -/
 theorem ucat_acc_total (ds : Array Nat) (seq outs : List Nat) (w : Nat → Int)
     (htopo : Topo ds seq) (hb : ∀ i ∈ seq, i < ds.size)
-    (hrange : ∀ o ∈ outs, o ≤ ds.size)
-    (hdist : ∀ p q o : Nat, outs[p]? = some o → outs[q]? = some o → o < ds.size → p = q) :
-    sumIf (List.range outs.length) (fun k => outs[k]! != ds.size) (fun k => (ucatAccum ds seq outs w).2[k]!) =
+    (hrange : ∀ o ∈ outs, o ≤ ds.size) :
+    sumIf (List.range outs.length)
+        (fun k => outs[k]! != ds.size && lastPos1 outs outs[k]! == (k : Int) + 1)
+        (fun k => (ucatAccum ds seq outs w).2[k]!) =
       sumIf (List.range ds.size) (fun i => (ucatAccum ds seq outs w).1[i]! != 0) w := by
   obtain ⟨M, hM⟩ : ∃ M, M = (ucatAccum ds seq outs w).1 := ⟨_, rfl⟩
   have hL := ucat_label_range ds seq outs w htopo hb
   rw [← hM] at hL ⊢
   -- prefix statement
   have key : ∀ m, m ≤ outs.length →
-      sumIf (List.range m) (fun k => outs[k]! != ds.size) (fun k => (ucatAccum ds seq outs w).2[k]!) =
+      sumIf (List.range m) (fun k => outs[k]! != ds.size && lastPos1 outs outs[k]! == (k : Int) + 1)
+        (fun k => (ucatAccum ds seq outs w).2[k]!) =
       sumIf (List.range ds.size) (fun i => decide (1 ≤ M[i]! ∧ M[i]! ≤ (m : Int))) w := by
     intro m
     induction m with
@@ -174,31 +224,48 @@ theorem ucat_acc_total (ds : Array Nat) (seq outs : List Nat) (w : Nat → Int)
       · congr 1
         have hget : outs[m]? = some outs[m] := List.getElem?_eq_getElem hmlt
         have hbang : outs[m]! = outs[m] := by simp [getElem!_def, hget]
-        by_cases hv : outs[m] = ds.size
-        · -- missing outlet: nothing carries its label
-          rw [hbang, hv]
-          simp only [bne_self_eq_false, Bool.false_eq_true, if_false]
+        -- when nothing carries label m + 1 the right-hand sum vanishes
+        have hnone : (∀ i : Nat, M[i]! ≠ (m : Int) + 1) →
+            0 = sumIf (List.range ds.size) (fun i => M[i]! == (m : Int) + 1) w := by
+          intro hno
           symm
           apply sumIf_false
           intro i _
-          rcases hL i with h | ⟨p, c, hp, hc, hvv⟩
-          · have : ¬ ((0 : Int) = (m : Int) + 1) := by omega
-            simp [h, this]
-          · have : ¬ ((p : Int) + 1 = (m : Int) + 1) := by
-              intro h
-              have : p = m := by omega
-              rw [this, hget] at hp
-              have := Option.some.inj hp
-              omega
-            simp [hvv, this]
+          have := hno i
+          simp [this]
+        by_cases hv : outs[m] = ds.size
+        · -- missing outlet: nothing carries its label
+          rw [hbang, hv]
+          simp only [bne_self_eq_false, Bool.false_and, Bool.false_eq_true, if_false]
+          apply hnone
+          intro i hi
+          rcases hL i with h | ⟨p, c, hp, hc, hvv, _⟩
+          · rw [h] at hi; omega
+          · have : p = m := by rw [hvv] at hi; omega
+            rw [this, hget] at hp
+            have := Option.some.inj hp
+            omega
         · have hlt : outs[m] < ds.size := by
             have := hrange outs[m] (List.getElem_mem hmlt)
             omega
           rw [hbang]
-          simp only [bne_iff_ne, ne_eq, hv, not_false_eq_true, if_true]
-          rw [hM]
-          exact ucat_acc_sum ds seq outs w htopo hb m outs[m] hget hlt
-            (fun q hq => hdist q m outs[m] hq hget hlt)
+          by_cases hl : lastPos1 outs outs[m] = (m : Int) + 1
+          · have hcond : (outs[m] != ds.size && lastPos1 outs outs[m] == (m : Int) + 1) = true := by
+              simp [hv, hl]
+            rw [if_pos hcond, hM]
+            exact ucat_acc_sum ds seq outs w htopo hb m outs[m] hget hlt
+              ((lastPos1_eq_iff outs m outs[m] hget).mp hl)
+          · -- the pixel is listed again later: excluded, and nothing carries label m + 1
+            have hl' : (lastPos1 outs outs[m] == (m : Int) + 1) = false := by simpa using hl
+            simp only [hl', Bool.and_false, Bool.false_eq_true, if_false]
+            apply hnone
+            intro i hi
+            rcases hL i with h | ⟨p, c, hp, hc, hvv, hmx⟩
+            · rw [h] at hi; omega
+            · have hpm : p = m := by rw [hvv] at hi; omega
+              rw [hpm, hget] at hp
+              have hc' : outs[m] = c := Option.some.inj hp
+              exact hl ((lastPos1_eq_iff outs m outs[m] hget).mpr (hc' ▸ (hpm ▸ hmx)))
       · intro i _
         rw [Bool.eq_iff_iff]
         simp only [decide_eq_true_eq, Bool.or_eq_true, beq_iff_eq]
@@ -210,12 +277,36 @@ theorem ucat_acc_total (ds : Array Nat) (seq outs : List Nat) (w : Nat → Int)
   rw [key outs.length (Nat.le_refl _)]
   apply sumIf_congr
   intro i _
-  rcases hL i with h | ⟨p, c, hp, _, hv⟩
+  rcases hL i with h | ⟨p, c, hp, _, hv, _⟩
   · simp [h]
   · have hplt : p < outs.length := (List.getElem?_eq_some_iff.mp hp).1
     have h1 : 1 ≤ M[i]! ∧ M[i]! ≤ (outs.length : Int) := by omega
     have h2 : M[i]! ≠ 0 := by omega
     simp [h1, h2]
+
+/-- **totals**, pairwise distinct outlet pixels: the values reported for all non-missing outlets add up
+to the total weight of all labelled cells. -/
+theorem ucat_acc_total_distinct (ds : Array Nat) (seq outs : List Nat) (w : Nat → Int)
+    (htopo : Topo ds seq) (hb : ∀ i ∈ seq, i < ds.size)
+    (hrange : ∀ o ∈ outs, o ≤ ds.size)
+    (hdist : ∀ p q o : Nat, outs[p]? = some o → outs[q]? = some o → o < ds.size → p = q) :
+    sumIf (List.range outs.length) (fun k => outs[k]! != ds.size) (fun k => (ucatAccum ds seq outs w).2[k]!) =
+      sumIf (List.range ds.size) (fun i => (ucatAccum ds seq outs w).1[i]! != 0) w := by
+  rw [← ucat_acc_total ds seq outs w htopo hb hrange]
+  apply sumIf_congr
+  intro k hk
+  have hklt : k < outs.length := by simpa using hk
+  have hget : outs[k]? = some outs[k] := List.getElem?_eq_getElem hklt
+  have hbang : outs[k]! = outs[k] := by simp [getElem!_def, hget]
+  rw [hbang]
+  by_cases hv : outs[k] = ds.size
+  · simp [hv]
+  · have hlt : outs[k] < ds.size := by
+      have := hrange outs[k] (List.getElem_mem hklt)
+      omega
+    have : lastPos1 outs outs[k] = (k : Int) + 1 :=
+      (lastPos1_eq_iff outs k outs[k] hget).mpr (fun q hq => by rw [hdist q k outs[k] hq hget hlt]; omega)
+    simp [this]
 
 /-- `ucat_volume`: row `d` of the flood-volume table is the sum of `area * max 0 (depth_d - hand)` over
 exactly the cells carrying the outlet's label (`ucat_volume_sum`). -/
@@ -223,7 +314,7 @@ theorem ucat_volume_sum (ds : Array Nat) (seq outs : List Nat) (hand area : Arra
     (htopo : Topo ds seq) (hb : ∀ i ∈ seq, i < ds.size)
     (d : Nat) (hd : d < depths.length)
     (k o : Nat) (hk : outs[k]? = some o) (ho : o < ds.size)
-    (hdist : ∀ q : Nat, outs[q]? = some o → q = k) :
+    (hlast : ∀ q : Nat, outs[q]? = some o → q ≤ k) :
     ((ucatVolume ds seq outs hand area depths).2[d]!)[k]! =
       sumIf (List.range ds.size) (fun i => (ucatVolume ds seq outs hand area depths).1[i]! == (k : Int) + 1)
         (fun i => area[i]! * max 0 (depths[d] - hand[i]!)) := by
@@ -233,7 +324,7 @@ theorem ucat_volume_sum (ds : Array Nat) (seq outs : List Nat) (hand area : Arra
   have h2 : (ucatVolume ds seq outs hand area depths).1 =
       (ucatAccum ds seq outs (volW area hand depths[d])).1 := ucat_map_indep ..
   rw [h1, h2]
-  exact ucat_acc_sum ds seq outs _ htopo hb k o hk ho hdist
+  exact ucat_acc_sum ds seq outs _ htopo hb k o hk ho hlast
 
 /-! ### non-vacuity -/
 -- chain 2 → 1 → 0 (pit), branch 3 → 1, 4 off the network; outlets: cell 1, a missing entry, pit 0
@@ -526,9 +617,175 @@ theorem segment_down_total (ds : Array Nat) (seq : List Nat) (isOut : Array Bool
       (by simp [stopInclAt, blocked, hp])
     exact ⟨_, lenWalk_complete ds isOut mask K0 (ds.size + 1) s (by omega) h2 h1⟩
 
+/-! ## totality: every walk of the model returns within its fuel on a loop-free network -/
+
+/-- the array `main_upstream` returns is an upstream-link array (from C11's `mainUpstream_argmax`) -/
+theorem mainUpstream_usLink (ds : Array Nat) (uparea : Array Int) (upaMin : Int) :
+    UsLink ds (mainUpstream ds uparea upaMin) := by
+  obtain ⟨hsz, hmain, _⟩ := Pf.C11.mainUpstream_argmax ds uparea upaMin
+  refine ⟨hsz, fun c hc => ?_⟩
+  rcases hmain c hc with ⟨a, _⟩ | ⟨a, b, c', _, _⟩
+  · exact Or.inl a
+  · exact Or.inr ⟨a, b, c'⟩
+
+/-- **termination, direction "up"**: on a loop-free network whose order contains every valid cell, the
+walks of all four segment kernels along an upstream-link array (`idxs_us_main`) return within the
+model's fuel `n + 1` from every cell of the raster, whatever the outlets and the mask -/
+theorem segment_up_total (ds us : Array Nat) (seq : List Nat) (isOut : Array Bool) (mask : Option (Array Bool))
+    (htopo : Topo ds seq) (hb : ∀ i ∈ seq, i < ds.size)
+    (hall : ∀ i, i < ds.size → ds[i]! ≠ ds.size → i ∈ seq) (hlink : UsLink ds us)
+    (s : Nat) (hs : s < ds.size) :
+    (∃ cells, exclWalk us isOut mask (us.size + 1) s = some cells) ∧
+    (∃ e, lenWalk us isOut mask (us.size + 1) s = some e) := by
+  obtain ⟨K, hK, hend⟩ := us_reaches_end htopo hall hlink s hs
+  have hlen := seq_length_le htopo hb
+  have hsz := hlink.1
+  constructor
+  · obtain ⟨K0, h0, h1, h2⟩ := exists_least (fun j => stopExcl us isOut mask (iterA us j s)) K
+      (by rcases hend with h | h <;> simp [stopExcl, h])
+    exact ⟨_, exclWalk_complete us isOut mask K0 (us.size + 1) s (by omega) h2 h1⟩
+  · obtain ⟨K0, h0, h1, h2⟩ := exists_least (stopInclAt us isOut mask s) K
+      (by rcases hend with h | h <;> simp [stopInclAt, blocked, h])
+    exact ⟨_, lenWalk_complete us isOut mask K0 (us.size + 1) s (by omega) h2 h1⟩
+
+/-- a start cell outside the network (no downstream cell) stops every downstream walk at once -/
+theorem segment_offnet_total (nxt : Array Nat) (isOut : Array Bool) (mask : Option (Array Bool))
+    (s : Nat) (hs : nxt[s]! = nxt.size) :
+    exclWalk nxt isOut mask (nxt.size + 1) s = some [s] ∧ lenWalk nxt isOut mask (nxt.size + 1) s = some s := by
+  simp [exclWalk, lenWalk, stopExcl, blocked, hs]
+
+/-- the four segment kernels return a value for every outlet vector as soon as the two walks return
+from every non-missing outlet pixel -/
+theorem segment_ops_total (nxt : Array Nat) (outs : List Nat) (mask : Option (Array Bool))
+    (h : ∀ s ∈ outs, s ≠ nxt.size →
+      (∃ cells, exclWalk nxt (outletFlags nxt.size outs) mask (nxt.size + 1) s = some cells) ∧
+      (∃ e, lenWalk nxt (outletFlags nxt.size outs) mask (nxt.size + 1) s = some e))
+    (distnc data weights elevtn : Array Int) (nodata : Int) (lstsq : Bool) :
+    (segLength nxt outs distnc mask).isSome = true ∧
+    (segAverage nxt outs data weights nodata mask).isSome = true ∧
+    (segMedian nxt outs data nodata mask).isSome = true ∧
+    (segSlope nxt outs elevtn distnc lstsq mask).isSome = true := by
+  refine ⟨?_, ?_, ?_, ?_⟩
+  all_goals
+    first | unfold segLength | unfold segAverage | unfold segMedian | unfold segSlope
+    apply mapM_option_isSome
+    intro s hs
+    by_cases hm : s = nxt.size
+    · simp [hm]
+    · obtain ⟨⟨cells, hc⟩, ⟨e, he⟩⟩ := h s hs hm
+      simp [hm, hc, he]
+
+/-- **`subgrid.outlets` returns**: on a loop-free network whose order contains every valid cell both
+outlet methods return (the `ihu_outlets` trace of every representative pixel ends within the fuel) -/
+theorem outlets_total (ds : Array Nat) (seq : List Nat) (upa : Array Int) (effare : Array Bool) (dmm : Bool)
+    (subncol cellsize nrowc ncolc : Nat)
+    (htopo : Topo ds seq) (hb : ∀ i ∈ seq, i < ds.size)
+    (hall : ∀ i, i < ds.size → ds[i]! ≠ ds.size → i ∈ seq) :
+    (outletsModel ds upa effare dmm subncol cellsize nrowc ncolc).isSome = true := by
+  unfold outletsModel
+  cases dmm with
+  | true => simp
+  | false =>
+    simp only [Bool.false_eq_true, if_false]
+    obtain ⟨hsz, hrep⟩ := rep_in_cell ds upa (fun i => effare[i]!) subncol cellsize (nrowc * ncolc) ncolc
+    unfold ihuOutlets
+    apply mapM_option_isSome
+    intro c hc
+    have hc' : c < nrowc * ncolc := by rw [← hsz]; simpa using hc
+    split
+    · rfl
+    · rename_i hm
+      rcases hrep c hc' with h1 | ⟨h1, h2, _, _⟩
+      · exact absurd h1 hm
+      · obtain ⟨K, hK, hp⟩ := reaches_pit_within htopo _ (hall _ h1 h2)
+        have hlen := seq_length_le htopo hb
+        exact ihuTrace_complete ds subncol cellsize ncolc c K (ds.size + 1) _ (by omega) hp
+
+/-- **`fixed_length_slope` returns**: both loops end within the fuel for every outlet pixel that is
+missing, a cell of the network, or a raster cell outside the network -/
+theorem fixed_length_slope_total (ds us : Array Nat) (seq outs : List Nat) (elevtn distnc : Array Int)
+    (half : Int) (lstsq : Bool) (mask : Option (Array Bool))
+    (htopo : Topo ds seq) (hb : ∀ i ∈ seq, i < ds.size)
+    (hall : ∀ i, i < ds.size → ds[i]! ≠ ds.size → i ∈ seq) (hlink : UsLink ds us)
+    (hout : ∀ o ∈ outs, o = ds.size ∨ o ∈ seq ∨ (o < ds.size ∧ ds[o]! = ds.size)) :
+    (fixedLengthSlope ds us outs elevtn distnc half lstsq mask).isSome = true := by
+  unfold fixedLengthSlope
+  apply mapM_option_isSome
+  intro s hs
+  have hlen := seq_length_le htopo hb
+  by_cases hm : s = ds.size
+  · simp [hm]
+  · rw [if_neg hm]
+    -- the downstream loop returns a cell of the raster
+    have hdown : ∃ d, flsDown ds distnc mask (distnc[s]! - half) (ds.size + 1) s = some d ∧ d < ds.size := by
+      rcases hout s hs with h | h | ⟨h1, h2⟩
+      · exact absurd h hm
+      · obtain ⟨K, hK, hp⟩ := reaches_pit_within htopo s h
+        have hsome := flsDown_complete ds distnc mask (distnc[s]! - half) K (ds.size + 1) s (by omega) (Or.inl hp)
+        cases hd : flsDown ds distnc mask (distnc[s]! - half) (ds.size + 1) s with
+        | none => rw [hd] at hsome; cases hsome
+        | some d => exact ⟨d, rfl, hb d (flsDown_mem htopo distnc mask _ _ s d h hd)⟩
+      · have hsome := flsDown_complete ds distnc mask (distnc[s]! - half) 0 (ds.size + 1) s (by omega)
+          (Or.inr (by simpa [iterA] using h2))
+        cases hd : flsDown ds distnc mask (distnc[s]! - half) (ds.size + 1) s with
+        | none => rw [hd] at hsome; cases hsome
+        | some d =>
+          have := flsDown_offnet ds distnc mask _ _ s d h2 hd
+          exact ⟨d, rfl, this ▸ h1⟩
+    obtain ⟨d, hd, hdn⟩ := hdown
+    rw [hd]
+    have hup := flsUp_total ds us distnc mask (distnc[s]! + half) (fun c => seq.length - seq.idxOf c)
+      (fun c hc hne => usLink_measure htopo hall hlink c hc hne) seq.length (ds.size + 1) d hdn
+      (Nat.sub_le _ _) (by omega)
+    simpa using hup
+
+/-! ## the statistics: median and least-squares slope characterised independently of the code -/
+
+/-- **median**: `median2` is taken in THE non-decreasing rearrangement `s` of the values: NaN (`none`) for
+no value, twice the middle element for an odd count, the sum of the two middle elements otherwise -/
+theorem median2_def (vals s : List Int) (hperm : s.Perm vals) (hs : s.Pairwise (fun a b => a ≤ b)) :
+    median2 vals = if s.length = 0 then none
+                   else if s.length % 2 = 1 then some (2 * s[s.length / 2]!)
+                   else some (s[s.length / 2 - 1]! + s[s.length / 2]!) := by
+  unfold median2
+  rw [insSort_unique vals s hperm hs]
+  simp only [List.size_toArray]
+  have e : ∀ i : Nat, s.toArray[i]! = s[i]! := fun i => by simp [getElem!_def]
+  simp only [e]
+
+/-- the sorted list exists for every input (the model's own sort), so `median2_def` always applies -/
+theorem median2_sorted_exists (vals : List Int) :
+    ∃ s : List Int, s.Perm vals ∧ s.Pairwise (fun a b => a ≤ b) :=
+  ⟨insSort vals, insSort_perm vals, insSort_sorted vals⟩
+
+/-- **least-squares slope = normal equations**: for a segment of at least two cells the fraction `N / D`
+returned for `lstsq = true` is the slope of the line `y = (N/D)·x + B/(n·D)`, `B = Σz·D − N·Σx`, whose
+residuals against (distance, elevation) sum to zero and are orthogonal to the distances — the normal
+equations of ordinary least squares (both scaled by `n·D`) -/
+theorem slope_lstsq_normal (cells : List Nat) (elevtn distnc : Array Int) (hlen : cells.length > 1)
+    (N D : Int) (h : slopeNumDen cells elevtn distnc true = (N, D)) :
+    (cells.map fun c => (cells.length : Int) * D * elevtn[c]! - (cells.length : Int) * N * distnc[c]! -
+        ((cells.map fun c => elevtn[c]!).sum * D - N * (cells.map fun c => distnc[c]!).sum)).sum = 0 ∧
+    (cells.map fun c => distnc[c]! * ((cells.length : Int) * D * elevtn[c]! - (cells.length : Int) * N * distnc[c]! -
+        ((cells.map fun c => elevtn[c]!).sum * D - N * (cells.map fun c => distnc[c]!).sum))).sum = 0 := by
+  unfold slopeNumDen at h
+  rw [if_pos hlen] at h
+  simp only [if_true] at h
+  exact lstsq_normal_eq cells (fun c => distnc[c]!) (fun c => elevtn[c]!) N D h
+
+/-- **mean slope**: elevation difference over distance difference between the first and the last cell of
+the segment; a single cell gives slope 0 for both methods -/
+theorem slope_mean_def (cells : List Nat) (elevtn distnc : Array Int) (lstsq : Bool) :
+    (cells.length > 1 → slopeNumDen cells elevtn distnc false =
+      (elevtn[cells.head!]! - elevtn[cells.getLast!]!, distnc[cells.head!]! - distnc[cells.getLast!]!)) ∧
+    (¬ cells.length > 1 → slopeNumDen cells elevtn distnc lstsq = (0, 1)) := by
+  constructor
+  · intro h; simp [slopeNumDen, h]
+  · intro h; simp [slopeNumDen, h]
+
 /-- **slope around the outlet pixel** (`fixed_length_slope`, `subgrid_rivslp(direction="both")`): the cells
-used start at the first cell downstream of the outlet pixel that is a pit, is masked out, or lies at
-least `half` below it, and follow the main upstream path up to the first cell that has no main upstream
+used start at the first cell downstream of the outlet pixel that is a pit, has no downstream cell (an
+outlet pixel outside the network), is masked out, or lies at least `half` below it, and follow the main upstream path up to the first cell that has no main upstream
 cell, whose main upstream cell is masked out, or that lies at least `half` above the outlet pixel -/
 theorem fixed_length_slope_spec (ds usMain : Array Nat) (outs : List Nat) (elevtn distnc : Array Int)
     (half : Int) (lstsq : Bool) (mask : Option (Array Bool)) (res : PerOutlet (Int × Int))
@@ -537,9 +794,9 @@ theorem fixed_length_slope_spec (ds usMain : Array Nat) (outs : List Nat) (elevt
     (s = ds.size ∧ res[k]? = some none) ∨
     (s ≠ ds.size ∧ ∃ Kd Ku,
       (∀ j, j < Kd → distnc[iterA ds j s]! > distnc[s]! - half ∧ ds[iterA ds j s]! ≠ iterA ds j s ∧
-        maskAt mask (iterA ds j s) = true) ∧
+        ds[iterA ds j s]! ≠ ds.size ∧ maskAt mask (iterA ds j s) = true) ∧
       (distnc[iterA ds Kd s]! ≤ distnc[s]! - half ∨ ds[iterA ds Kd s]! = iterA ds Kd s ∨
-        maskAt mask (iterA ds Kd s) = false) ∧
+        ds[iterA ds Kd s]! = ds.size ∨ maskAt mask (iterA ds Kd s) = false) ∧
       (∀ j, j < Ku → distnc[iterA usMain j (iterA ds Kd s)]! < distnc[s]! + half ∧
         usMain[iterA usMain j (iterA ds Kd s)]! ≠ usMain.size ∧
         maskAt mask usMain[iterA usMain j (iterA ds Kd s)]! = true) ∧
@@ -566,6 +823,17 @@ theorem fixed_length_slope_spec (ds usMain : Array Nat) (outs : List Nat) (elevt
       exact Or.inr ⟨hs, Kd, Ku, hpre, hend, hpre', hend', by rw [hb1, ← hb, hcells]⟩
 
 /-! ### non-vacuity (segments, outlets) -/
+-- an outlet pixel listed twice (cell 1 at positions 0 and 2): the last position labels, the first entry
+-- keeps the pixel's own area
+example : ucatArea #[0, 0, 1, 1, 5] [0, 1, 2, 3] [1, 0, 1] #[10, 20, 30, 40, 50] =
+    (#[2, 3, 3, 3, 0], #[20, 10, 90]) := by decide
+example : median2 [8, 5, 6] = some (2 * 6) := by
+  rw [median2_def [8, 5, 6] [5, 6, 8] (by decide) (by decide)]; decide
+example : median2 [8, 5, 6, 3] = some (5 + 6) := by
+  rw [median2_def [8, 5, 6, 3] [3, 5, 6, 8] (by decide) (by decide)]; decide
+example : slopeNumDen [2, 1, 0] #[0, 1, 3] #[0, 1, 2] true = (9, 6) := by decide
+example : UsLink #[0, 0, 0, 1, 1] (mainUpstream #[0, 0, 0, 1, 1] #[5, 2, 2, 1, 1] 0) := mainUpstream_usLink ..
+example : mainUpstream #[0, 0, 0, 1, 1] #[5, 2, 2, 1, 1] 0 = #[1, 3, 5, 5, 5] := by decide
 -- chain 4 → 3 → 2 → 1 → 0, unit spacing, window of half-length 1 around cell 2: cells 1, 2, 3
 example : fixedLengthSlope #[0, 0, 1, 2, 3] #[1, 2, 3, 4, 5] [2, 5] #[0, 1, 3, 6, 10] #[0, 1, 2, 3, 4] 1 false none =
     some [some (-5, -2), none] := by decide
